@@ -31,6 +31,9 @@ class Registration(Stream):
         for i in range(n_cfg):
             r = rng.fork("cfg%d" % i)
             cfg = proc.default_cfg(r if i else None, counts=[2, 0, 0, 0, 0])
+            if i % 4 == 3:       # hexadecimal key material that begins with the digit 0 / with a zero octet
+                cfg["k"] = "0" + cfg["k"][1:]
+                cfg["opc"] = "00" + cfg["opc"][2:]
             if i % 4 == 1:       # OP-only configuration: opc: "" in the file, the network holds OPc = E_K(OP) xor OP
                 import crypto5g
                 op = r.bytes(16)
